@@ -1123,7 +1123,15 @@ func modeHash() {
 	sc := bufio.NewScanner(os.Stdin)
 	sc.Buffer(make([]byte, 1<<20), 1<<26)
 	for sc.Scan() {
-		parts := strings.Split(strings.TrimSpace(sc.Text()), ",")
+		line := strings.TrimSpace(sc.Text())
+		if line == "" {
+			fmt.Fprintln(out, "none")
+			continue
+		}
+		if line == "-" {
+			line = ""
+		}
+		parts := strings.Split(line, ",")
 		var us [][]byte
 		for _, p := range parts {
 			b, err := hex.DecodeString(p)
